@@ -329,7 +329,7 @@ func (c *Ctx) Func(name string) *ssa.Function {
 	if f := c.Pkg.Func(name); f != nil && f.Blocks != nil {
 		return f
 	}
-	return nil
+	return c.funcByRole(name)
 }
 
 // Method finds method `name` on named type `typ` (pointer or value receiver).
@@ -352,7 +352,7 @@ func (c *Ctx) Method(typ, name string) *ssa.Function {
 			// promoted method wrappers are synthetic: return nil for those
 		}
 	}
-	return nil
+	return c.methodByRole(typ, name)
 }
 
 func (c *Ctx) NamedType(name string) *types.Named {
